@@ -134,7 +134,8 @@ pub fn check_classification(p: &Program, tree: &sv::SyntaxTree, text: &str) -> R
                                 seen_tok[ti] = true;
                                 let parent = stack.last().map(|s| s.as_str()).unwrap_or("");
                                 let ok = match tok.class {
-                                    Class::Ident => parent == "SimpleIdentifier",
+                                    // c_identifier (DPI) is the one other Annex A production made of a plain identifier token
+                                    Class::Ident => parent == "SimpleIdentifier" || parent == "CIdentifier",
                                     Class::EscIdent => parent == "EscapedIdentifier",
                                     Class::SysIdent => parent == "SystemTfIdentifier",
                                     _ => true,
